@@ -17,6 +17,7 @@ type Explorer struct {
 	Bound     int  // preemption bound; <0: unbounded
 	Fine      bool // statement-level scheduling points
 	UseKeys   bool // prune executions that reach an already explored state
+	CountOnly bool // compute state keys to count distinct states, never prune
 	MaxSteps  int
 	MaxExecs  int64
 	Deadline  time.Time
@@ -43,8 +44,16 @@ type work struct {
 func (e *Explorer) exec(prefix []int, prePreempt int) (*Sched, []work) {
 	setup, body, check := e.NewRun()
 	var next []work
-	cfg := Config{Prefix: prefix, MaxSteps: e.MaxSteps, Keys: e.UseKeys, Fine: e.Fine}
+	cfg := Config{Prefix: prefix, MaxSteps: e.MaxSteps, Keys: e.UseKeys || e.CountOnly, Fine: e.Fine}
 	pre := 0 // preemptions so far along this execution (recomputed from the points)
+	if e.CountOnly && !e.UseKeys {
+		cfg.OnPoint = func(s *Sched, p *Point) bool {
+			if _, seen := e.visited.LoadOrStore(p.Key, 0); !seen {
+				atomic.AddInt64(&e.States, 1)
+			}
+			return true
+		}
+	}
 	if e.UseKeys {
 		cfg.OnPoint = func(s *Sched, p *Point) bool {
 			// called for points beyond the prefix, before the default choice is taken
